@@ -75,6 +75,56 @@ theorem decode_encode_value (R : Registry) (gz : Bytes → Option Bytes) (dp : N
     ∃ v', decVal R gz dp fuel ty (bs ++ rest) hs = .ok (v', rest, hs) ∧ erase v' = erase v :=
   rt_val R gz dp hR v ty bs rest hs fuel hwt henc hf
 
+/-! ## serialising twice -/
+
+/-- **Determinism clause** ("serialising the same value twice gives identical bytes"): two serialisations of one
+value that both succeed are the same bytes. In the model this is functionality - `marshal` reads nothing but the
+registry and the value: no clock, no map order, no buffer kept from an earlier call, no record of objects seen
+before -, so the content of the clause is the tie: the real `tl.Marshal` is compared with this function on every
+operation, called twice on the same Go value (`nondeterministic` / `again=` of c01.rt, c01.dag, c01.wrap), and
+operations are repeated later in the run (state carried from one call to the next). Values of the model are
+trees: a Go value in which one object occurs at several places is the tree it unfolds to, and the harness
+checks on the real code that it is serialised exactly like that tree built from separate objects (c01.dag). -/
+theorem marshal_deterministic (R : Registry) (v : Val) (b₁ b₂ : Bytes)
+    (h₁ : marshal R v = .ok b₁) (h₂ : marshal R v = .ok b₂) : b₁ = b₂ := by
+  rw [h₁] at h₂
+  exact Outcome.ok.inj h₂
+
+/-- the hypotheses are satisfiable: the value of the non-vacuity example below is serialised -/
+example : (marshal [⟨0x05086cf8, "WallPaperSettings", .struct, some 0, [], [
+      ⟨"Blur", .bool, some ⟨1, true⟩⟩, ⟨"BackgroundColor", .int32, some ⟨0, false⟩⟩]⟩]
+    (.obj 0x05086cf8 [.bool false, .word 7])).isOk = true := by decide
+
+/-- An object used twice is written twice: the serialisation of a vector is the concatenation of the
+serialisations of its elements, each a function of the element alone - the second occurrence of an element is
+written exactly like the first, whatever was written in between (what a cycle guard that remembers every object
+it has seen gets wrong). -/
+theorem encList_append (R : Registry) : ∀ (xs ys : List Val) (a b : Bytes),
+    encList R xs = .ok a → encList R ys = .ok b → encList R (xs ++ ys) = .ok (a ++ b)
+  | [], ys, a, b, ha, hb => by
+    simp only [encList, Outcome.ok.injEq] at ha
+    subst ha
+    simpa using hb
+  | x :: xs, ys, a, b, ha, hb => by
+    simp only [encList] at ha
+    cases hx : encVal R x with
+    | err e => simp [hx] at ha
+    | panic s => simp [hx] at ha
+    | ok ax =>
+      cases hxs : encList R xs with
+      | err e => simp [hx, hxs] at ha
+      | panic s => simp [hx, hxs] at ha
+      | ok axs =>
+        simp only [hx, hxs, Outcome.ok.injEq] at ha
+        subst ha
+        have ih := encList_append R xs ys axs b hxs hb
+        simp [encList, hx, ih, List.append_assoc]
+
+/-- the same element at two places of a vector: its bytes occur twice -/
+theorem encList_twice (R : Registry) (x : Val) (a : Bytes) (h : encVal R x = .ok a) :
+    encList R [x, x] = .ok (a ++ a) := by
+  simp [encList, h]
+
 /-! ## flag groups -/
 
 /-- A group of conditional fields sharing flag bit `b` counts as present — bit `b` of the flags word
